@@ -87,6 +87,14 @@ func VerifC07Twin() {
 		verifAssert(r.err == nil, "the operation through the view failed where the parent at dir/name succeeds")
 	} else {
 		verifAssert(r.err != nil, "the operation through the view succeeded where the parent at dir/name fails")
+		// "same result": the failure is reported in the view's namespace, like the parent reports dir/name in its own
+		if op == 6 {
+			if le, ok := r.err.(*hackpadfs.LinkError); ok {
+				verifAssert(le.Old == rLastArg && le.New == rLastArg2, "the view's LinkError does not name the view's own paths")
+			}
+		} else if pe, ok := r.err.(*hackpadfs.PathError); ok {
+			verifAssert(pe.Path == r.epath, "the view's PathError does not name the path in the view's namespace")
+		}
 	}
 	rCompare(view, inner, "view after the step")
 	rCompareAt(parent, inner, dir, "parent below dir after the step")
